@@ -10,6 +10,15 @@
 (* only by os.path.exists:                                                     *)
 (*   Variant "code"  : Memo as found at the pinned commit                      *)
 (*   Variant "fixed" : no reuse across calls                                   *)
+(* Two further kinds of process-lifetime state are modelled as must-fail       *)
+(* variants (neither exists in the code; both were seeded by reviewers):       *)
+(*   Variant "statcache"  : per-file hashes reused while (size, modification   *)
+(*                          stamp) are unchanged - wrong for a file rewritten  *)
+(*                          in place whose time stamp is put back              *)
+(*                          (rsync --inplace --times)                          *)
+(*   Variant "sharedindex": the candidate index of a rebuild survives into the *)
+(*                          next rebuild, which then finds files outside the   *)
+(*                          search directories it was given                    *)
 (* hist is a history variable (excluded from the fingerprint by VIEW) used to  *)
 (* emit behaviours for replay with -simulate.                                  *)
 EXTENDS Core, TLC, FiniteSetsExt
@@ -22,9 +31,9 @@ Targets == {"r", "r/d", "r/a"}
 Absent == -1
 Under(t) == CASE t = "r" -> Files [] t = "r/d" -> {"b", "c"} [] t = "r/a" -> {"a"}
 
-VARIABLES fs, gen, memo, metas, last, nops, hist
-vars == <<fs, gen, memo, metas, last, nops, hist>>
-View == <<fs, gen, memo, metas, last, nops>>
+VARIABLES fs, gen, stamp, memo, hc, idx, metas, last, nops, hist
+vars == <<fs, gen, stamp, memo, hc, idx, metas, last, nops, hist>>
+View == <<fs, gen, stamp, memo, hc, idx, metas, last, nops>>
 
 Present(f) == fs[f] # Absent
 TargetExists(t) == IF t = "r/a" THEN Present("a") ELSE TRUE
@@ -69,6 +78,9 @@ Store(m, t) ==
                                 m2 == IF Hit(m, "r/d", TRUE) THEN m1 ELSE upd(withFiles(m1, {"b", "c"}), "r/d", LookupD(m))
                             IN upd(m2, "r", LookupR(m))
 
+\* "statcache": the bytes hashed for f are the cached ones while size and stamp look unchanged
+NoHash == [has |-> FALSE, size |-> 0, stamp |-> 0, gen |-> 0]
+CacheHit(f) == Variant = "statcache" /\ hc[f].has /\ hc[f].size = fs[f] /\ hc[f].stamp = stamp[f]
 \* TorrentFile.assemble etc.: listing from the memo; per-file sizes of a directory torrent are read
 \* fresh (os.path.getsize), a single file's length is the memoised total; a listed file that has
 \* vanished makes the create fail
@@ -77,7 +89,7 @@ ToolCreate(t) ==
     IF \E f \in e.files : ~Present(f) THEN [kind |-> "error", files |-> {}, sizes |-> <<>>, gens |-> <<>>]
     ELSE [kind |-> "meta", files |-> e.files,
           sizes |-> [f \in e.files |-> IF t = "r/a" THEN e.total ELSE fs[f]],
-          gens |-> [f \in e.files |-> gen[f]]]
+          gens |-> [f \in e.files |-> IF CacheHit(f) THEN hc[f].gen ELSE gen[f]]]
 
 (* ---- actions ------------------------------------------------------------------------ *)
 Log(op) == hist' = Append(hist, op)
@@ -90,8 +102,12 @@ Create(t, v, pl, route) == /\ Step /\ TargetExists(t) /\ FreshListing(t) # {}
                 /\ last' = [op |-> "create", got |-> ToolCreate(t), want |-> FreshCreate(t)]
                 /\ memo' = Store(memo, t)
                 /\ metas' = metas \cup {t}
+                /\ hc' = (IF Variant = "statcache"
+                          THEN [f \in Files |-> IF f \in FreshListing(t) /\ ~CacheHit(f)
+                                                THEN [has |-> TRUE, size |-> fs[f], stamp |-> stamp[f], gen |-> gen[f]] ELSE hc[f]]
+                          ELSE hc)
                 /\ Log([op |-> "create", target |-> t, version |-> v, plen |-> pl, route |-> route])
-                /\ UNCHANGED <<fs, gen>>
+                /\ UNCHANGED <<fs, gen, stamp, idx>>
 Mutate(kind, f) ==
     /\ Step
     /\ CASE kind = "add"     -> ~Present(f) /\ \E s \in 0 .. MaxSize : fs' = [fs EXCEPT ![f] = s] /\ gen' = gen
@@ -99,25 +115,44 @@ Mutate(kind, f) ==
          [] kind = "grow"    -> Present(f) /\ fs[f] < MaxSize /\ fs' = [fs EXCEPT ![f] = fs[f] + 1] /\ gen' = gen
          [] kind = "shrink"  -> Present(f) /\ fs[f] > 0 /\ fs' = [fs EXCEPT ![f] = fs[f] - 1] /\ gen' = gen
          [] kind = "rewrite" -> Present(f) /\ fs[f] > 0 /\ gen' = [gen EXCEPT ![f] = (gen[f] + 1) % 3] /\ fs' = fs
+         \* rewritten in place (same inode, same length) and the modification time put back
+         [] kind = "rewritekeep" -> Present(f) /\ fs[f] > 0 /\ gen' = [gen EXCEPT ![f] = (gen[f] + 1) % 3] /\ fs' = fs
+    \* every mutation but the last kind leaves a new modification stamp (tracked only where it matters)
+    /\ stamp' = (IF Variant = "statcache" /\ kind # "rewritekeep" THEN [stamp EXCEPT ![f] = (stamp[f] + 1) % 4] ELSE stamp)
     /\ last' = [op |-> "none", got |-> 0, want |-> 0]
     /\ Log([op |-> kind, file |-> PathOf(f), size |-> fs'[f]])
-    /\ UNCHANGED <<memo, metas>>
+    /\ UNCHANGED <<memo, hc, idx, metas>>
 \* operations on an existing metafile: no process-lifetime state is involved
 Use(kind, t) == /\ Step /\ t \in metas /\ (kind = "recheck" => TargetExists(t) \/ t # "r/a")
                 /\ last' = [op |-> kind, got |-> 0, want |-> 0]
                 /\ Log([op |-> kind, target |-> t])
-                /\ UNCHANGED <<fs, gen, memo, metas>>
+                /\ UNCHANGED <<fs, gen, stamp, memo, hc, idx, metas>>
+\* rebuild searches the directories it is given: the content root itself ("own"), an empty directory,
+\* or a directory holding a copy of r/a only ("part"); what it can find is what is there NOW
+Avail(search) == CASE search = "own" -> {f \in Files : Present(f)}
+                   [] search = "part" -> {f \in {"a"} : Present(f)}
+                   [] OTHER -> {}
+Rebuild(t, search) ==
+    /\ Step /\ t \in metas
+    /\ last' = [op |-> "rebuild", want |-> Avail(search),
+                got |-> IF Variant = "sharedindex" THEN Avail(search) \cup {f \in idx : Present(f)} ELSE Avail(search)]
+    /\ idx' = (IF Variant = "sharedindex" THEN idx \cup Avail(search) ELSE idx)
+    /\ Log([op |-> "rebuild", target |-> t, search |-> search])
+    /\ UNCHANGED <<fs, gen, stamp, memo, hc, metas>>
 
-Init == /\ fs \in [Files -> {Absent, 1}] /\ gen = [f \in Files |-> 0]
+Init == /\ fs \in [Files -> {Absent, 1}] /\ gen = [f \in Files |-> 0] /\ stamp = [f \in Files |-> 0]
+        /\ hc = [f \in Files |-> NoHash] /\ idx = {}
         /\ memo = [k \in {"r", "r/d", "r/a", "r/d/b", "r/d/c"} |-> NoEntry]
         /\ metas = {} /\ last = [op |-> "none", got |-> 0, want |-> 0] /\ nops = 0
         /\ hist = <<[op |-> "init", fs |-> fs]>>
 Next == \/ \E t \in Targets, v \in 1 .. 3, pl \in 1 .. 2, rt \in {"lib", "cli", "clitracker", "cliconfig"} : Create(t, v, pl, rt)
-        \/ \E k \in {"add", "delete", "grow", "shrink", "rewrite"}, f \in Files : Mutate(k, f)
-        \/ \E k \in {"recheck", "rebuild", "magnet", "edit"}, t \in Targets : Use(k, t)
+        \/ \E k \in {"add", "delete", "grow", "shrink", "rewrite", "rewritekeep"}, f \in Files : Mutate(k, f)
+        \/ \E k \in {"recheck", "magnet", "edit"}, t \in Targets : Use(k, t)
+        \/ \E t \in Targets, se \in {"own", "empty", "part"} : Rebuild(t, se)
 Spec == Init /\ [][Next]_vars
 
 \* C09: every create describes the current state exactly as a fresh process would
-ResultFresh == last.op = "create" => last.got = last.want
+\* ... and every rebuild finds exactly what its search directories hold
+ResultFresh == last.op \in {"create", "rebuild"} => last.got = last.want
 Emit == nops = MaxOps => PrintT(<<"HIST", hist>>)
 =============================================================================
